@@ -483,16 +483,35 @@ class X86Model(object):
                 raise AnalysisError('_dis: rejection guard `%s` is outside the evaluable subset: %s' % (u(g.test)[:60], e))
         return False
 
+    def is_digit_test(self, test):
+        """Is `test` the selection of the /digit rows: true for afs = d0..d7, false for the other addressing kinds?  Decided by evaluating it (the
+        spelling `afs in [d0, .., d7]`, `afs in digit_afs`, `type(afs) is int` ... does not matter)."""
+        names = set(x.id for x in ast.walk(test) if isinstance(x, ast.Name))
+        if 'afs' not in names:
+            return False
+        E = self.env
+        digits = [E[k] for k in ('d0', 'd1', 'd2', 'd3', 'd4', 'd5', 'd6', 'd7') if k in E]
+        others = [E[k] for k in ('noafs', 'reg', 'cond') if k in E]
+        if len(digits) != 8 or not others:
+            return False
+        scope = dict((k, v) for k, v in E.items() if isinstance(v, (str, int, bool, list, tuple, dict)) or v is None)
+        try:
+            return all(bool(Evaluator(dict(scope, afs=d)).ev(test)) for d in digits) and not any(bool(Evaluator(dict(scope, afs=o)).ev(test)) for o in others)
+        except NotConst:
+            return False
+
+    def digit_branch(self, fn):
+        from .srcmodel import walk_no_nested
+        found = [n for n in walk_no_nested(fn) if isinstance(n, ast.If) and self.is_digit_test(n.test)]
+        return found[-1] if found else None
+
     def dis_digit_reg_rejected(self, modifs, dibs, name='', opc=(0,)):
         """Does the /digit branch of _dis return None for a register (mod == 3) r/m operand of this row variant?
         The guards `if <cond>: return None` of that branch are evaluated with modr = {ad: False}."""
         from .srcmodel import walk_no_nested
         if getattr(self, '_digit_guards', None) is None:
             dis = self.arch.method('x86_mn', '_dis')
-            branch = None
-            for n in walk_no_nested(dis):
-                if isinstance(n, ast.If) and u(n.test).replace(' ', '') == 'afsin[d0,d1,d2,d3,d4,d5,d6,d7]':
-                    branch = n
+            branch = self.digit_branch(dis)
             if branch is None:
                 raise AnalysisError('_dis: the /digit branch was not found')
             self._digit_guards = [st for st in branch.body if isinstance(st, ast.If) and len(st.body) >= 1 and isinstance(st.body[-1], ast.Return)
@@ -518,10 +537,7 @@ class X86Model(object):
         from .srcmodel import walk_no_nested, parent
         if getattr(self, '_size_stmts', None) is None:
             dis = self.arch.method('x86_mn', '_dis')
-            digit = None
-            for n in walk_no_nested(dis):
-                if isinstance(n, ast.If) and u(n.test).replace(' ', '') == 'afsin[d0,d1,d2,d3,d4,d5,d6,d7]':
-                    digit = n
+            digit = self.digit_branch(dis)
             if digit is None:
                 raise AnalysisError('_dis: the /digit branch was not found')
             dst = None
